@@ -126,6 +126,18 @@ func Extract(repo string) (*Schema, error) {
 	if sc.Response, ok = sc.ByName["protocol.Response"]; !ok {
 		return nil, fmt.Errorf("protocol.thrift has no struct Response")
 	}
+	for _, need := range [][2]string{{"protocol.Request", "AST"}, {"AST.Thrift", "Filename"}, {"AST.Thrift", "Includes"}, {"AST.Include", "Reference"}} {
+		i, ok := sc.ByName[need[0]]
+		found := false
+		if ok {
+			for _, f := range sc.Structs[i].Fields {
+				found = found || f.Name == need[1]
+			}
+		}
+		if !found {
+			return nil, fmt.Errorf("%s.%s not found: the include graph cannot be located", need[0], need[1])
+		}
+	}
 	return sc, nil
 }
 
@@ -320,6 +332,22 @@ func (sc *Schema) Lean() string {
 		fmt.Fprintf(&sb, "s%d", i)
 	}
 	sb.WriteString("], keepUnknown := false, validateSet := false }\n\n")
-	fmt.Fprintf(&sb, "def requestIdx : Nat := %d\ndef responseIdx : Nat := %d\n\nend Generated.C11\n", sc.Request, sc.Response)
+	fmt.Fprintf(&sb, "def requestIdx : Nat := %d\ndef responseIdx : Nat := %d\n\n", sc.Request, sc.Response)
+	// where the include graph lives (positions in the id-ordered field lists), for the driver's AST ↔ include-tree bridge
+	pos := func(st, field string) int {
+		i, ok := sc.ByName[st]
+		if !ok {
+			return -1
+		}
+		for j, f := range sc.Structs[i].Fields {
+			if f.Name == field {
+				return j
+			}
+		}
+		return -1
+	}
+	fmt.Fprintf(&sb, "def thriftIdx : Nat := %d\ndef includeIdx : Nat := %d\n", sc.ByName["AST.Thrift"], sc.ByName["AST.Include"])
+	fmt.Fprintf(&sb, "def requestAstPos : Nat := %d\ndef thriftFilenamePos : Nat := %d\ndef thriftIncludesPos : Nat := %d\ndef includeReferencePos : Nat := %d\n\nend Generated.C11\n",
+		pos("protocol.Request", "AST"), pos("AST.Thrift", "Filename"), pos("AST.Thrift", "Includes"), pos("AST.Include", "Reference"))
 	return sb.String()
 }
